@@ -45,6 +45,9 @@ type Link struct {
 	// d/DeadlineScale (the code's minute-scale error-echo deadline is then waited for in sub-second real time).
 	DeadlineScale int
 
+	// WriteDelay paces the transport: every Write takes this long (slept outside the lock).
+	WriteDelay time.Duration
+
 	Obs Observer
 }
 
@@ -126,6 +129,9 @@ func (l *Link) doCut() {
 
 func (e *End) Write(p []byte) (int, error) {
 	l := e.l
+	if l.WriteDelay > 0 {
+		time.Sleep(l.WriteDelay)
+	}
 	l.mu.Lock()
 	defer l.mu.Unlock()
 	if e.closed {
